@@ -100,6 +100,7 @@ def bounded(run, mods, tier):
     cio, es5, unparsers, sourcemap = mods
     n = 0
     fails = []
+    older = []        # (stream, times closed) of the previous call
 
     def fail(case, why, **kw):
         if len(fails) < 10:
@@ -137,6 +138,12 @@ def bounded(run, mods, tier):
                             continue
                         if not closed_right(log):
                             fail(case, 'streams closed: %r' % [(s.origin, s.closes) for s in log])
+                        # ... and the streams of earlier calls are left alone (a call owns only what it opened itself)
+                        again = [(s.origin, getattr(s, 'name', None), c, s.closes) for s, c in older if s.closes != c]
+                        if again:
+                            fail(case + ' | after earlier calls', 'a stream of an earlier call was closed again: %r' % again[:3])
+                        del older[:]
+                        older.extend((s, s.closes) for s in log)
                         if tick.n >= tick.k:
                             reached = True
                         if raised is not None:
